@@ -46,6 +46,7 @@ class P(vlib.Prop):
         vlib.Harness("decode", "cmd/otelcorecol", ".",
                      {"zz_verif_c13_test.go": "C13/decode_test.go",
                       "zz_verif_c13_faithful_test.go": "C13/faithful_test.go",
+                      "zz_verif_c13_validate_test.go": "C13/validate_test.go",
                       "zz_verif_c13_schema_common_test.go": "C13/schema_common_test.go"},
                      "^TestVerifC13Decode$", "main"),
     ]
